@@ -784,5 +784,113 @@ class AsyncFuzz(Suite):
     confirm_hang = staticmethod(confirm_hang(run_async))
 
 
-SUITES = [SyncEnum(), AsyncEnum(), SyncLines(), SyncRandom(), AsyncRandom(), SyncStraddle(), AsyncStraddle(), SyncFuzz(), AsyncFuzz()]
+def _records_case(kind, cs, rec_len, delim, n_reads, consume, lead, mid):
+    """n records of rec_len bytes (delimiter included), so that successive delimiters drift across the chunk boundaries;
+    `lead` bytes are read first; `mid` = an operation slipped in after the 3rd delimited read (or None)."""
+    body = bytes(97 + i % 23 for i in range(max(rec_len - len(delim), 0)))
+    data = b'L' * lead + (body + delim) * (n_reads + 2) + b'tail'
+    ops = ([['read', lead]] if lead else []) + [['read_until', delim, -1, consume] for _ in range(n_reads)]
+    if not consume:
+        # the delimiter stays in the stream: step over it explicitly
+        ops = ([['read', lead]] if lead else [])
+        for _ in range(n_reads):
+            ops += [['read_until', delim, -1, False], ['read', len(delim)]]
+    if mid is not None:
+        ops.insert(min(len(ops), 3 + (1 if lead else 0)), mid)
+    ops.append(['read', -1])
+    case = {'data': data, 'chunk_size': cs, 'ops': ops, 'maxlen_delta': 0}
+    if kind == 'sync':
+        case['chunks'] = [0]
+    else:
+        case['chunks'] = [cs]
+        case['trailing_empty'] = False
+    return case
+
+
+class _Records(Suite):
+    exhaustive = True
+    budget = {'quick': 1, 'thorough': 1}
+    case_timeout = 30
+    kind = 'sync'
+
+    def cases(self, tier):
+        for cs in ((2, 3, 4, 8) if tier == 'quick' else (2, 3, 4, 5, 8, 16)):
+            for delim in (b'\r\n', b'--b', b'\n'):
+                for off in (-1, 0, 1, 2):
+                    for mult in (1, 2):
+                        rec_len = cs * mult + off
+                        if rec_len <= len(delim) or len(delim) > cs:
+                            continue  # documented precondition: 1 <= len(delimiter) <= chunk_size
+                        for n_reads in ((6, 12) if tier == 'quick' else (5, 6, 9, 12, 40)):
+                            for consume in (True, False):
+                                for lead in (0, 1):
+                                    yield {'cs': cs, 'rec_len': rec_len, 'delim': delim, 'n': n_reads, 'consume': consume, 'lead': lead, 'mid': None}
+                                if n_reads == 12:
+                                    yield {'cs': cs, 'rec_len': rec_len, 'delim': delim, 'n': n_reads, 'consume': consume, 'lead': 0, 'mid': ['peek', 1]}
+
+    def run(self, case):
+        full = _records_case(self.kind, case['cs'], case['rec_len'], case['delim'], case['n'], case['consume'], case['lead'], case['mid'])
+        (run_sync if self.kind == 'sync' else run_async)(full)
+        return Info(True, ['chunk_size:%d' % case['cs'], 'delimited_reads_in_a_row:%s' % ('<=6' if case['n'] <= 6 else '>6'),
+                           'consume' if case['consume'] else 'keep_delimiter'])
+
+
+class SyncRecords(_Records):
+    """Sync reader, long regular histories: 5-40 delimited reads IN A ROW over records whose length is the chunk size (or
+    twice it) -1 / +0 / +1 / +2, so that the delimiter drifts across every position relative to the chunk boundary and
+    the consumed head of the buffer keeps growing; delimiter consumed or left in place; then read(-1)."""
+
+    name = 'sync_records'
+    kind = 'sync'
+    confirm_hang = staticmethod(confirm_hang(run_sync))
+
+
+class AsyncRecords(_Records):
+    """Async reader: the same record streams."""
+
+    name = 'async_records'
+    kind = 'async'
+    confirm_hang = staticmethod(confirm_hang(run_async))
+
+
+class SyncHuge(Suite):
+    """Sizes beyond the moderate range with the DEFAULT chunk size: data of 100 000 bytes - 6 MiB + 1, one read(-1), one
+    read(n) for n just below / at / above 64 KiB, 1 MiB, 4 MiB, a delimited read whose delimiter comes after 5 MiB,
+    sources delivering full and short reads."""
+
+    name = 'sync_huge'
+    exhaustive = True
+    budget = {'quick': 1, 'thorough': 1}
+    case_timeout = 120
+
+    def cases(self, tier):
+        MiB = 1 << 20
+        for size in ((100000, 4 * MiB + 1, 6 * MiB + 1) if tier == 'quick' else (100000, MiB + 1, 4 * MiB - 1, 4 * MiB, 4 * MiB + 1, 6 * MiB + 1)):
+            for chunks in ([0], [65536], [32768, 1]):
+                for oi in range(6):
+                    yield {'size': size, 'chunks': chunks, 'ops': oi}
+
+    def run(self, case):
+        size = case['size']
+        MiB = 1 << 20
+        data = (bytes(range(97, 123)) * (size // 26 + 1))[:size - 3] + b'--!'
+        ops = [
+            [['read', -1]],
+            [['read', size - 7], ['read', -1]],
+            [['read', 65537], ['read', 4 * MiB + 1], ['read', -1]],
+            [['read_until', b'--!', -1, True], ['read', -1]],
+            [['read', 1], ['peek', 3], ['read', 5 * MiB], ['read', 10]],
+            [['readline', -1], ['read', 70000], ['exhaust']],
+        ][case['ops']]
+        full = {'data': data, 'chunk_size': None, 'chunks': case['chunks'], 'ops': ops, 'maxlen_delta': 0}
+        try:
+            run_sync(full)
+        except Violation as v:
+            d = v.detail
+            raise Violation(v.kind, '%s ... %s\n  compact case=%r ops=%r' % (d[:200], d[-400:], case, ops))
+        return Info(True, ['size:%s' % ('<=4MiB' if size <= 4 * MiB else '>4MiB'), 'ops:%d' % case['ops'], 'source_chunks:%r' % (case['chunks'],)])
+
+
+
+SUITES = [SyncEnum(), AsyncEnum(), SyncLines(), SyncRandom(), AsyncRandom(), SyncStraddle(), AsyncStraddle(), SyncRecords(), AsyncRecords(), SyncHuge(), SyncFuzz(), AsyncFuzz()]
 KNOWN = {}
